@@ -134,10 +134,9 @@ func (nd *node) dirNames() []string {
 func (nd *node) remove() {
 	nd.children = nil
 
+	// The data is kept: open handles keep working on a file whose last name is gone,
+	// the node is garbage collected with its last handle.
 	nd.nlink--
-	if nd.nlink == 0 {
-		nd.data = nil
-	}
 }
 
 // setMode sets the permissions of the file node.
